@@ -41,6 +41,9 @@ type vfC11Case struct {
 	RefServer   bool     `json:"refServer"`
 	Stderr      []string `json:"stderr"` // raw stderr lines of a reference server (%d in a line is replaced by a batch index)
 	NoFinalEOL  bool     `json:"noFinalEOL"`
+	// SlowLog: every request and answer is logged (-vv) and the printer takes a few milliseconds for an
+	// "answer received" line, so the evaluation of an answer is still going on when the next thing happens
+	SlowLog bool `json:"slowLog,omitempty"`
 }
 
 func vfC11Name(i int) string { return fmt.Sprintf("Suite/verif-c11/case-%d", i) }
@@ -213,11 +216,16 @@ func vfContainsInt(l []int, v int) bool {
 }
 
 type vfC11Printer struct {
-	mu    sync.Mutex
-	lines []string
+	mu      sync.Mutex
+	lines   []string
+	slowOn  string // lines containing this take slowFor
+	slowFor time.Duration
 }
 
 func (p *vfC11Printer) Printf(msg string, args ...any) {
+	if p.slowOn != "" && strings.Contains(msg, p.slowOn) {
+		time.Sleep(p.slowFor)
+	}
 	p.mu.Lock()
 	defer p.mu.Unlock()
 	p.lines = append(p.lines, fmt.Sprintf(msg, args...))
@@ -290,6 +298,9 @@ func vfC11Check(c vfC11Case) error {
 	})
 	results := newResults(c.N, &testTrie{}, &testTrie{}, nil)
 	logP, errP := &vfC11Printer{}, &vfC11Printer{}
+	if c.SlowLog {
+		logP.slowOn, logP.slowFor = "Received response", 8*time.Millisecond
+	}
 	meta := serverInstance{protocol: conformancev1.Protocol_PROTOCOL_CONNECT, httpVersion: conformancev1.HTTPVersion_HTTP_VERSION_1, useTLS: c.UseTLS}
 	var creds *conformancev1.TLSCreds
 	if c.UseTLS {
@@ -298,12 +309,21 @@ func vfC11Check(c vfC11Case) error {
 	done := make(chan struct{})
 	go func() {
 		defer close(done)
-		runTestCasesForServer(context.Background(), false, c.RefServer, meta, testCases, creds, nil, starter, logP, errP, results, client, nil, false)
+		runTestCasesForServer(context.Background(), false, c.RefServer, meta, testCases, creds, nil, starter, logP, errP, results, client, nil, c.SlowLog)
 	}()
 	select {
 	case <-done:
 	case <-time.After(60 * time.Second):
 		return verifkit.Violf("batch-hang", "runTestCasesForServer did not return within 60s")
+	}
+	// what the batch has recorded when it returns is final (unless the server died: see below)
+	atReturn := map[string]string{}
+	if c.ServerFault != "die" {
+		results.mu.Lock()
+		for name, o := range results.outcomes {
+			atReturn[name] = fmt.Sprintf("setupError=%v failure=%v", o.setupError, o.actualFailure)
+		}
+		results.mu.Unlock()
 	}
 	// when the batch function returns, every case already has its outcome (unless the server died: then the
 	// answers still outstanding are collected by the runner's later bookkeeping)
@@ -331,6 +351,12 @@ func vfC11Check(c vfC11Case) error {
 	}
 	results.mu.Lock()
 	defer results.mu.Unlock()
+	for name, was := range atReturn {
+		o := results.outcomes[name]
+		if now := fmt.Sprintf("setupError=%v failure=%v", o.setupError, o.actualFailure); now != was {
+			return verifkit.Violf("outcome-changed-after-return", "%q: the batch returned with %s, later it became %s (client fault %s@%d, delivery %s, slow log %v)", name, was, now, c.ClientFault, c.ClientAt, c.Delivery, c.SlowLog)
+		}
+	}
 	var missing, extra []string
 	for i := 0; i < c.N; i++ {
 		if _, ok := results.outcomes[vfC11Name(i)]; !ok {
@@ -463,6 +489,26 @@ func vfC11Check(c vfC11Case) error {
 			return verifkit.Violf("stderr-passthrough", "forwarded stderr lines %q, want %q", gotForwarded, wantForwarded)
 		}
 	}
+	// The report merges the recorded feedback into the outcomes: a case that could not be set up or got no
+	// result stays a setup error whether or not the server printed a line about it, a failed case stays failed,
+	// and no case is added or dropped.
+	type verdict struct{ setup, failed bool }
+	before := map[string]verdict{}
+	for name, o := range results.outcomes {
+		before[name] = verdict{o.setupError, o.actualFailure != nil}
+	}
+	results.mu.Unlock()
+	results.report(&vfC11Printer{})
+	results.mu.Lock() // (released by the deferred Unlock above)
+	if len(results.outcomes) != len(before) {
+		return verifkit.Violf("report-changes-outcomes", "%d outcomes before the report, %d after it", len(before), len(results.outcomes))
+	}
+	for name, b := range before {
+		o, ok := results.outcomes[name]
+		if !ok || o.setupError != b.setup || (b.failed && o.actualFailure == nil) {
+			return verifkit.Violf("report-changes-outcomes", "%q: setupError=%v failed=%v before the report; present=%v setupError=%v failure=%v after it (feedback %q)", name, b.setup, b.failed, ok, o.setupError, o.actualFailure, results.serverSideband[name])
+		}
+	}
 	return nil
 }
 
@@ -499,6 +545,7 @@ func vfGenC11(t *rapid.T) vfC11Case {
 			c.ClientErr = append(c.ClientErr, i)
 		}
 	}
+	c.SlowLog = rapid.IntRange(0, 3).Draw(t, "slowLog") == 0
 	c.RefServer = rapid.Bool().Draw(t, "refServer")
 	if c.RefServer {
 		for i, n := 0, rapid.IntRange(0, 6).Draw(t, "nstderr"); i < n; i++ {
